@@ -73,7 +73,7 @@ class World(S.WorldComponent):
     prop = "C05"
     theorems = ["rx_never_crashes_proved", "rx_no_hang", "sctp_parsers_total", "rx_never_crashes2_proved",
                 "reachable_rx_never_crashes_proved"]
-    mix = [("hostile", False, 2), ("hostile-benign", False, 3), ("hostile-benign", True, 1)]
+    mix = [("hostile", False, 2), ("hostile-benign", False, 3), ("hostile-benign", True, 1), ("strike", False, 1)]
     quick = (40, 220)
     thorough = (400, 400)
     oracles = [oracle_alive]
